@@ -62,6 +62,42 @@ Fixpoint opt_concat (l : list (option (list N))) : option (list N) :=
 Definition clear2 (fl : Z) : Z := Z.land fl (Z.lnot 2).
 Definition set2 (fl : Z) : Z := Z.lor fl 2.
 
+(** ** Resource flags.  Bit 0x02 of a directory entry says "the 4-byte value is the data itself".  What [VTF.save]
+    stores for an out-of-line entry, for an inline entry and for the fixed entries, and the test by which [VTF.read]
+    decides to fetch a data block, are regenerated from the source as expression trees over the resource's flags
+    ([fexpr] / [ftest]) and judged semantically: [flags_ok] enumerates the whole domain of the one-byte field. *)
+Inductive fexpr := FVar | FConst (z : Z) | FNot (a : fexpr) | FAnd (a b : fexpr) | FOr (a b : fexpr) | FXor (a b : fexpr).
+Fixpoint fl_eval (e : fexpr) (f : Z) : Z :=
+  match e with
+  | FVar => f
+  | FConst z => z
+  | FNot a => Z.lnot (fl_eval a f)
+  | FAnd a b => Z.land (fl_eval a f) (fl_eval b f)
+  | FOr a b => Z.lor (fl_eval a f) (fl_eval b f)
+  | FXor a b => Z.lxor (fl_eval a f) (fl_eval b f)
+  end.
+(** [ft_eval t f = true]: the reader looks for the data elsewhere in the file *)
+Inductive ftest := TIsZero (e : fexpr) | TEq (a b : fexpr) | TNot (t : ftest).
+Fixpoint ft_eval (t : ftest) (f : Z) : bool :=
+  match t with
+  | TIsZero e => Z.eqb (fl_eval e f) 0
+  | TEq a b => Z.eqb (fl_eval a f) (fl_eval b f)
+  | TNot t' => negb (ft_eval t' f)
+  end.
+Record flagcfg := { fl_offset : fexpr; fl_inline : fexpr; fl_fixed : list fexpr; fl_test : ftest }.
+Definition all_bytes : list Z := map Z.of_nat (seq 0 256).
+Definition offset_flags_ok (c : flagcfg) : bool := forallb (fun f => Z.eqb (fl_eval (fl_offset c) f) (clear2 f)) all_bytes.
+Definition inline_flags_ok (c : flagcfg) : bool := forallb (fun f => Z.eqb (fl_eval (fl_inline c) f) (set2 f)) all_bytes.
+Definition read_test_ok (c : flagcfg) : bool := forallb (fun f => Bool.eqb (ft_eval (fl_test c) f) (Z.eqb (Z.land f 2) 0)) all_bytes.
+Definition fixed_flags_ok (c : flagcfg) : bool := forallb (fun e => Z.eqb (fl_eval e 0) 0) (fl_fixed c).
+Definition flags_ok (c : flagcfg) : bool := offset_flags_ok c && inline_flags_ok c && read_test_ok c && fixed_flags_ok c.
+Definition good_flagcfg : flagcfg :=
+  {| fl_offset := FAnd FVar (FNot (FConst 2)); fl_inline := FOr FVar (FConst 2); fl_fixed := [FConst 0; FConst 0; FConst 0];
+     fl_test := TIsZero (FAnd FVar (FConst 2)) |}.
+(** the shape of a seeded fault: the out-of-line entry keeps ONLY bit 2 (the `~` lost) *)
+Definition masked_flagcfg : flagcfg :=
+  {| fl_offset := FAnd FVar (FConst 2); fl_inline := fl_inline good_flagcfg; fl_fixed := fl_fixed good_flagcfg; fl_test := fl_test good_flagcfg |}.
+
 (** a data block: 4-byte length, then the data *)
 Definition block (F : cfmts) (d : list N) : option (list N) :=
   opt_app (pack (f_len F) [VInt (Z.of_nat (List.length d))]) (Some d).
@@ -70,22 +106,22 @@ Definition res_blocks (v : vfile) : list (list N) :=
   ++ match v_sheet v with Some d => [d] | None => [] end.
 
 (** directory entries; [offs] are the offsets of the data blocks, consumed in order *)
-Fixpoint res_entries (F : cfmts) (rs : list (list N * Z * resval)) (offs : list nat) : option (list N) * list nat :=
+Fixpoint res_entries (F : cfmts) (G : flagcfg) (rs : list (list N * Z * resval)) (offs : list nat) : option (list N) * list nat :=
   match rs with
   | [] => (Some [], offs)
   | (id, fl, RInline x) :: r =>
-      let '(rest, o') := res_entries F r offs in
-      (opt_app (pack (f_entry F) [VBytes id; VInt (set2 fl); VInt x]) rest, o')
+      let '(rest, o') := res_entries F G r offs in
+      (opt_app (pack (f_entry F) [VBytes id; VInt (fl_eval (fl_inline G) fl); VInt x]) rest, o')
   | (id, fl, RData _) :: r =>
       let o := hd 0 offs in
-      let '(rest, o') := res_entries F r (tl offs) in
-      (opt_app (pack (f_entry F) [VBytes id; VInt (clear2 fl); VInt (Z.of_nat o)]) rest, o')
+      let '(rest, o') := res_entries F G r (tl offs) in
+      (opt_app (pack (f_entry F) [VBytes id; VInt (fl_eval (fl_offset G) fl); VInt (Z.of_nat o)]) rest, o')
   end.
 
 Definition set_header_size (h : list value) (hs : nat) : list value :=
   match h with _ :: r => VInt (Z.of_nat hs) :: r | [] => [] end.
 
-Definition encode_file (F : cfmts) (v : vfile) : option (list N) :=
+Definition encode_file (F : cfmts) (G : flagcfg) (v : vfile) : option (list N) :=
   let m := v_minor v in
   let n_res := (List.length (v_res v) + 2 + (if v_sheet v then 1 else 0))%nat in
   let fixed := (4 + calcsize (f_version F) + calcsize (f_header F) + (if (2 <=? m)%Z then calcsize (f_depth F) else 0))%nat in
@@ -94,7 +130,7 @@ Definition encode_file (F : cfmts) (v : vfile) : option (list N) :=
   let boffs := offsets hs (map (fun d => 4 + List.length d) blocks) in
   let low_off := (hs + list_sum (map (fun d => 4 + List.length d) blocks))%nat in
   let high_off := (low_off + List.length (v_low v))%nat in
-  let '(entries, rest_offs) := res_entries F (v_res v) boffs in
+  let '(entries, rest_offs) := res_entries F G (v_res v) boffs in
   let dir :=
     if (3 <=? m)%Z then
       opt_concat [pack (f_count F) [VInt (Z.of_nat n_res)]; entries;
@@ -133,7 +169,7 @@ Definition read_block (F : cfmts) (bs : list N) (off : nat) : option (list N) :=
 
 (** what [VTF.read] gets out of the container: (minor, header values, depth, resources, sheet bytes, offset of the
     thumbnail, offset of the first frame).  [low_size] is the size of the thumbnail (needed below 7.3 only). *)
-Definition decode_file (F : cfmts) (low_size : nat) (bs : list N)
+Definition decode_file (F : cfmts) (G : flagcfg) (low_size : nat) (bs : list N)
   : option (Z * list value * Z * list (list N * Z * resval) * option (list N) * nat * nat) :=
   if negb (bytes_eqb (slice bs 0 4) [86; 84; 70; 0]%N) then None else
   match read_at (f_version F) bs 4 with
@@ -157,7 +193,7 @@ Definition decode_file (F : cfmts) (low_size : nat) (bs : list N)
                         let highs := filter (fun e => bytes_eqb (fst (fst e)) ID_HIGH) es in
                         let others := filter (fun e => negb (bytes_eqb (fst (fst e)) ID_LOW || bytes_eqb (fst (fst e)) ID_HIGH)) es in
                         let res := map (fun e => let '(id, fl, x) := e in
-                                                 if Z.eqb (Z.land fl 2) 0
+                                                 if ft_eval (fl_test G) fl
                                                  then match read_block F bs (Z.to_nat x) with Some dta => Some (id, fl, RData dta) | None => None end
                                                  else Some (id, fl, RInline x)) others in
                         if existsb (fun r => match r with None => true | _ => false end) res then None else
